@@ -333,7 +333,7 @@ pub fn run(rep: &Report) {
     }
     rep.set_exhaustive(true);
     // (c) random ASTs
-    let n = rep.tier.pick(300_000u64, 3_000_000);
+    let n = rep.tier.pick(300_000u64, 10_000_000);
     let depth = rep.tier.pick(6u32, 12);
     common::random_search(rep, "random-asts", 20, n, &move || arb_ast_case(no_sequence_cfg(depth)), &|c: &AstCase, l| {
         l.sample(3, || json!({"ast": c.ast.sexp(), "minimal": tok::render_spaced(&render_tokens(&c.ast, &mut Minimal))}));
